@@ -12,10 +12,11 @@ SINK_KINDS = ["branch", "switch", "select-condition", "load-address", "store-add
               "division-operand", "shift-amount", "indirect-call-target"]
 
 
-def analyse(ck, mod, label, rule="R-C07-FLOW", extra_sources=()):
+def analyse(ck, mod, label, rule="R-C07-FLOW", extra_sources=(), internal=()):
     srcs, nfn = secrets.sources(mod)
     srcs = list(srcs) + list(extra_sources)
     d = dep.Dep(mod, srcs, TRUSTED_OUT, BENIGN)
+    d.internal_ext = set(internal)
     d.run()
     secret_mask = 0
     for i, n in enumerate(d.label_names):
@@ -85,8 +86,11 @@ def run(ck, build):
     ck.assume("the entropy callback and the OS entropy primitives are trusted parties that may see the seed buffer")
     ck.assume("the accept/reject verdict returned by check_tag is public (stated in the property); it is never branched on inside the library")
     tot = {}
+    libfns = set()
     for form in ("N0", "R3"):
         mod = Module(build.facts("H", form, inline=(form == "N0")))
+        if form == "N0":
+            libfns = {n for n, g in mod.fns.items() if g.insts}
         ck.config("H", form)
         d, counts, nfn, nsrc = analyse(ck, mod, "H/" + form)
         for k, v in counts.items():
@@ -103,7 +107,7 @@ def run(ck, build):
                 raise
             ck.config(v, "N0")
             try:
-                analyse(ck, mod, v + "/N0")
+                analyse(ck, mod, v + "/N0", internal=libfns)
             except Broken as e:
                 ck.note("variant %s not analysed for C07: %s" % (v, e))
     # assembly backends: branches on the round counter only, addresses base + constant
